@@ -1674,7 +1674,8 @@ zshPrefixLoop:
 		pe.Exp = p.paramExpExp()
 	case at, star:
 		switch {
-		case p.tok == star && !pe.Excl:
+		case p.tok == star && (!pe.Excl || p.r != '}'):
+			// Only ${!prefix*} uses a star; it is not an expansion operator.
 			p.curErr("not a valid parameter expansion operator: %#q", p.tok)
 		case pe.Excl && p.r == '}':
 			p.checkLang(pe.Pos(), langBashLike, "`${!foo%s}`", p.tok)
